@@ -862,6 +862,10 @@ func (e *Executor) Execute(ctx context.Context, m File) (err error) {
 		// since the last attempt, and so its statement count.
 		r.Total = len(stmts)
 	}
+	// The same holds if the last attempt failed on the first statement.
+	if r.Applied == 0 {
+		r.Total = len(stmts)
+	}
 	e.log.Log(LogFile{m, r.Version, r.Description, r.Applied})
 	if err := e.fileChecks(ctx, m, r); err != nil {
 		e.log.Log(LogError{Error: err})
